@@ -88,6 +88,11 @@ class MinDKLOptimizer(object):
         The optimization is convex, so we use sp.optimize.minimize.
         """
         x0 = np.dot(self._p, self._domain_inv)
+        if not np.isfinite(self.objective(np.clip(x0, 0, 1))):
+            # The pseudo-inverse start can fall outside the box; projected onto
+            # its boundary (a weight of exactly zero) the divergence can be
+            # infinite, and the line search cannot start there: begin inside.
+            x0 = np.clip(x0, 1e-6, 1)
 
         bounds = [(0, 1)] * x0.size
 
